@@ -174,7 +174,7 @@ def run(p, report, tier):
                     obj = ev.data["obj"]
                     ckw = obj.ckw
                     cname_ext = ev.data["cls"][2:]
-                    construct = f"{cname_ext.split('.')[-1]}.{ev.data['method']} in {ev.fi.qual}: {norm_stmt(ev.node)}"
+                    construct = f"{cname_ext.split('.')[-1]}.{ev.data['method']}: {norm_stmt(ev.node)}"
                     verdict, why = seed_verdict(ckw)
                     report.add("R6.3", ent, construct, ev.loc, verdict, detail=why, path=ev.path())
                     rs = (ckw.items or {}).get("random_state") if ckw is not None else None
